@@ -83,6 +83,8 @@ BEHAVIOUR = [
     ("star-args-forwarding", "def g(*a, **k):\n    return a, sorted(k.items())\ndef f(x, /, y, *a, z=1, **k):\n    return g(x, y, *a, z=z, **k)\nprint(f(1, 2, 3, 4, z=5, w=6))\n"),
     ("method-signature", "class A:\n    def m(self, a, /, b=2, *c, d, e=5, **f):\n        return (a, b, c, d, e, f)\nprint(A().m(1, d=4), A().m(1, 2, 3, d=4, g=7))\n"),
     ("recursion-default", "def fact(n, acc=1):\n    if n <= 1:\n        return acc\n    return fact(n - 1, acc * n)\nprint(fact(6))\n"),
+    ("parameters-read-by-nested-class-body", "def f(a, b=2, *c, d=4, **e):\n    class K:\n        v = (a, b, c, d, sorted(e))\n        class N:\n            w = (a, d)\n        def m(self, p=b):\n            return p\n    return K.v, K.N.w, K().m()\nprint(f(1), f(1, 5, 6, d=7, z=8))\n"),
+    ("parameters-read-by-lambda-and-comprehension", "def f(a, /, b, *, c=3):\n    return (lambda: (a, b, c))(), [a + i for i in range(b)], {c: a}\nprint(f(1, 2), f(1, b=1, c=0))\n"),
     ("kwonly-default-class-var", "class A:\n    base = 5\n    def m(self, *, k=base, j=base + 1):\n        return (k, j)\nprint(A().m(), A().m(k=1))\n"),
     ("kwonly-default-captured", "def outer(x):\n    def inner(*, k=x):\n        return k\n    def cap():\n        return x\n    x = x + 1\n    return inner(), cap()\nprint(outer(1))\n"),
     ("pos-default-captured-local", "def outer():\n    x = 2\n    def cap():\n        return x\n    def f(a=x, b=x + 1):\n        return a, b\n    return f(), cap()\nprint(outer())\n"),
